@@ -1848,6 +1848,146 @@ def gen_with_column(repo, fn):
             % (exists, sel))
 
 
+# ---- C06: generator plumbing of the element-wise transformations and of take / first / isEmpty -------------------------
+
+def gen_c06(repo):
+    """What the translation ASSUMES is the documented laziness of the constructs themselves - a generator expression evaluates
+    its element expression when an output is pulled, `itertools.chain.from_iterable` and `itertools.islice` pull on demand -:
+    each is rendered as the corresponding stream transformer of Model/Lazy.lean. What it CHECKS is that the text still consists
+    of these constructs in this arrangement (a list comprehension, `list(...)` around an upstream, `chain(*l)`, a loop that
+    looks ahead ... are refused), and the theorems then say what the arrangement does."""
+    tree = parse(repo, 'pysparkling/rdd.py')
+    rdd = find_class(tree, 'RDD')
+
+    def body_of(fn):
+        return [st for st in fn.body if not (isinstance(st, ast.Expr) and isinstance(st.value, ast.Constant))]
+
+    def single_return(cls, name, params):
+        fns = [n for n in cls.body if isinstance(n, ast.FunctionDef) and n.name == name]
+        if len(fns) != 1 or [a.arg for a in fns[0].args.args] != ['self'] + params:
+            raise NotTranslatable('%s.%s parameters' % (cls.name, name))
+        b = body_of(fns[0])
+        if len(b) != 1 or not isinstance(b[0], ast.Return):
+            raise NotTranslatable('%s.%s is no longer a single return' % (cls.name, name))
+        return b[0].value
+
+    def genexp(ge, it, fn_src):
+        """a generator expression over the upstream iterator `it` that calls the user function `fn_src` -> stream transformer"""
+        if not isinstance(ge, ast.GeneratorExp):
+            raise NotTranslatable('not a generator expression (evaluated eagerly?): ' + ast.unparse(ge)[:70])
+        gens = ge.generators
+        if any(g.is_async for g in gens) or ast.unparse(gens[0].iter) != it or not isinstance(gens[0].target, ast.Name):
+            raise NotTranslatable('generator over something else than the upstream iterator: ' + ast.unparse(ge)[:70])
+        v = gens[0].target.id
+        call = '%s(%s)' % (fn_src, v)
+        if len(gens) == 1 and not gens[0].ifs and ast.unparse(ge.elt) == call:
+            return 'lmap k f x'
+        if len(gens) == 1 and len(gens[0].ifs) == 1 and ast.unparse(gens[0].ifs[0]) == call and ast.unparse(ge.elt) == v:
+            return 'lfilter k f x'
+        if len(gens) == 2 and not gens[0].ifs and not gens[1].ifs and ast.unparse(gens[1].iter) == call \
+                and isinstance(gens[1].target, ast.Name) and ast.unparse(ge.elt) == gens[1].target.id:
+            return 'lflatMap k f x'
+        raise NotTranslatable('generator expression shape: ' + ast.unparse(ge)[:70])
+
+    def stage_lambda(e):
+        """`lambda tc, i, x: <generator expression over x>`"""
+        if not (isinstance(e, ast.Lambda) and [a.arg for a in e.args.args] == ['tc', 'i', 'x']):
+            raise NotTranslatable('stage function ' + ast.unparse(e)[:70])
+        return genexp(e.body, 'x', 'f')
+
+    def mprdd(call, want_stage):
+        """`MapPartitionsRDD(self, <stage>, preservesPartitioning=…)[.setName(…)]` -> the stage argument"""
+        if isinstance(call, ast.Call) and isinstance(call.func, ast.Attribute) and call.func.attr == 'setName':
+            call = call.func.value
+        if not (isinstance(call, ast.Call) and ast.unparse(call.func) == 'MapPartitionsRDD' and len(call.args) == 2
+                and ast.unparse(call.args[0]) == 'self'):
+            raise NotTranslatable(want_stage + ': not a MapPartitionsRDD over self')
+        return call.args[1]
+
+    # map: MapF(f), whose __call__ is the generator expression
+    st = mprdd(single_return(rdd, 'map', ['f']), 'map')
+    if ast.unparse(st) != 'MapF(f)':
+        raise NotTranslatable('map stage ' + ast.unparse(st)[:60])
+    mapf = find_class(tree, 'MapF')
+    init = [n for n in mapf.body if isinstance(n, ast.FunctionDef) and n.name == '__init__']
+    if len(init) != 1 or [ast.unparse(x) for x in body_of(init[0])] != ['self.f = f']:
+        raise NotTranslatable('MapF.__init__')
+    call = [n for n in mapf.body if isinstance(n, ast.FunctionDef) and n.name == '__call__']
+    if len(call) != 1 or [a.arg for a in call[0].args.args] != ['self', 'tc', 'i', 'x'] or len(body_of(call[0])) != 1 \
+            or not isinstance(body_of(call[0])[0], ast.Return):
+        raise NotTranslatable('MapF.__call__')
+    map_t = genexp(body_of(call[0])[0].value, 'x', 'self.f')
+    filter_t = stage_lambda(mprdd(single_return(rdd, 'filter', ['f']), 'filter'))
+    flat_t = stage_lambda(mprdd(single_return(rdd, 'flatMap', ['f', 'preservesPartitioning']), 'flatMap'))
+    for name, lam in (('keyBy', 'lambda e: (f(e), e)'), ('keys', 'lambda e: e[0]'), ('values', 'lambda e: e[1]')):
+        params = ['f'] if name == 'keyBy' else []
+        if ast.unparse(single_return(rdd, name, params)) != 'self.map(%s)' % lam:
+            raise NotTranslatable(name + ' is no longer a map')
+    # MapPartitionsRDD.compute: the stage applied to the parent's (unevaluated) iterator of the same split
+    mp = find_class(tree, 'MapPartitionsRDD')
+    comp = [n for n in mp.body if isinstance(n, ast.FunctionDef) and n.name == 'compute']
+    if len(comp) != 1 or [ast.unparse(x) for x in body_of(comp[0])] != \
+            ['return self.f(task_context, split.index, self.prev.compute(split, task_context._create_child()))']:
+        raise NotTranslatable('MapPartitionsRDD.compute')
+
+    # take / first: the job hands each partition's iterator on unevaluated; the result handler pulls
+    def handler(e, task_params):
+        if not (isinstance(e, ast.Call) and ast.unparse(e.func) == 'self.context.runJob' and len(e.args) == 2 and ast.unparse(e.args[0]) == 'self'):
+            raise NotTranslatable('not a runJob: ' + ast.unparse(e)[:60])
+        kw = {k.arg: k.value for k in e.keywords}
+        if sorted(kw) != ['allowLocal', 'resultHandler'] or ast.unparse(kw['allowLocal']) != 'True':
+            raise NotTranslatable('runJob keywords')
+        task = e.args[1]
+        if not (isinstance(task, ast.Lambda) and [a.arg for a in task.args.args] == task_params and ast.unparse(task.body) == task_params[1]):
+            raise NotTranslatable('the task function evaluates the partition: ' + ast.unparse(task)[:60])
+        h = kw['resultHandler']
+        if not (isinstance(h, ast.Lambda) and [a.arg for a in h.args.args] == ['l']):
+            raise NotTranslatable('result handler')
+        return h.body
+
+    def hexpr(e):
+        src = ast.unparse(e)
+        if src == 'l':
+            return 'l'
+        if isinstance(e, ast.Call) and ast.unparse(e.func) == 'itertools.chain.from_iterable' and len(e.args) == 1 and not e.keywords:
+            return '(chainStreams %s)' % hexpr(e.args[0])
+        if isinstance(e, ast.Call) and ast.unparse(e.func) == 'list' and len(e.args) == 1 and isinstance(e.args[0], ast.Call) \
+                and ast.unparse(e.args[0].func) == 'itertools.islice' and len(e.args[0].args) == 2 and ast.unparse(e.args[0].args[1]) == 'n':
+            return '(isliceList n %s)' % hexpr(e.args[0].args[0])
+        if isinstance(e, ast.Call) and ast.unparse(e.func) == 'first_of' and len(e.args) == 1:
+            return '(firstOf %s)' % hexpr(e.args[0])
+        raise NotTranslatable('result handler expression: ' + src[:70])
+    take_t = hexpr(handler(single_return(rdd, 'take', ['n']), ['tc', 'i']))
+    first_t = hexpr(handler(single_return(rdd, 'first', []), ['tc', 'iterable']))
+    fo = [n for n in tree.body if isinstance(n, ast.FunctionDef) and n.name == 'first_of']
+    if len(fo) != 1 or [a.arg for a in fo[0].args.args] != ['iterable'] or [ast.unparse(x) for x in body_of(fo[0])] != \
+            ['for element in iterable:\n    return element', "raise ValueError('RDD is empty')"]:
+        raise NotTranslatable('first_of')
+    if ast.unparse(single_return(rdd, 'isEmpty', [])) != 'not self.partitions() or len(self.take(1)) == 0':
+        raise NotTranslatable('isEmpty')
+    out = ('open PysparklingVerif.Lazy\n\n'
+           '/-- `MapF.__call__(tc, i, x)` (the stage of `map`, hence of `keyBy` / `keys` / `values`): a generator expression over the upstream -/\n'
+           'def mapStage {α : Type} (k : Nat) (f : α → α) (x : LStream α) : LStream α := %s\n'
+           '/-- the stage of `filter` -/\n'
+           'def filterStage {α : Type} (k : Nat) (f : α → Bool) (x : LStream α) : LStream α := %s\n'
+           '/-- the stage of `flatMap` -/\n'
+           'def flatMapStage {α : Type} (k : Nat) (f : α → List α) (x : LStream α) : LStream α := %s\n\n'
+           '/-- `MapPartitionsRDD.compute(split, tc)`: the stage applied to the parent\'s iterator of the same split, which is handed over unevaluated -/\n'
+           'def compute {α : Type} (stage : LStream α → LStream α) (prevCompute : LStream α) : LStream α := stage prevCompute\n\n'
+           '/-- `first_of(iterable)`: `for element in iterable: return element` pulls one output (no output: ValueError) -/\n'
+           'def firstOf {α : Type} (s : LStream α) : List (Ev α) × List α := isliceList 1 s\n\n'
+           '/-- the result handler of `take(n)` over the per-partition iterators `l` the job hands on (task function: the identity) -/\n'
+           'def takeHandler {α : Type} (n : Nat) (l : List (LStream α)) : List (Ev α) × List α := %s\n'
+           '/-- the result handler of `first()` -/\n'
+           'def firstHandler {α : Type} (l : List (LStream α)) : List (Ev α) × List α := %s\n'
+           '/-- `isEmpty()`: `not self.partitions() or len(self.take(1)) == 0` - calls and answer -/\n'
+           'def isEmpty {α : Type} (l : List (LStream α)) : List (Ev α) × Bool :=\n'
+           '  if l.isEmpty then ([], true) else ((takeHandler 1 l).1, (takeHandler 1 l).2.length == 0)\n'
+           % (map_t, filter_t, flat_t, take_t, first_t))
+    return ('pysparkling/rdd.py (RDD.map / MapF, filter, flatMap, keyBy, keys, values: the generator expressions; MapPartitionsRDD.compute; '
+            'take, first / first_of, isEmpty: task function and result handler)'), out
+
+
 # ---- C05: CacheManager, TimedCacheManager, PersistedRDD.compute ------------------------------------
 
 ENTRY_FIELDS = ('mem_obj', 'disk_location')
@@ -1956,4 +2096,4 @@ def gen_c05(repo):
     return 'pysparkling/cache_manager.py (CacheManager.add/get/has/delete, TimedCacheManager.add/gc), pysparkling/rdd.py (PersistedRDD.compute)', out
 
 
-GENERATORS_M = {'C02': gen_c02, 'C11': gen_c11, 'C04': gen_c04, 'C05': gen_c05, 'C10': gen_c10, 'C09': gen_c09, 'C20': gen_c20, 'C03': gen_c03, 'C08': gen_c08, 'C12': gen_c12, 'C01': gen_c01, 'C19': gen_c19, 'C13': gen_c13, 'C15': gen_c15}
+GENERATORS_M = {'C02': gen_c02, 'C11': gen_c11, 'C04': gen_c04, 'C05': gen_c05, 'C10': gen_c10, 'C09': gen_c09, 'C20': gen_c20, 'C03': gen_c03, 'C08': gen_c08, 'C12': gen_c12, 'C01': gen_c01, 'C19': gen_c19, 'C13': gen_c13, 'C15': gen_c15, 'C06': gen_c06}
